@@ -274,3 +274,9 @@ def thread_writes(rep, repo):
     rep.ob('C07.writes', 'cuda.atomic.add(abuf, (a_loc, sim), ...)', ok)
     if not ok:
         rep.violate('C07.writes', wmod, g, at[0] if at else 'cuda.atomic.add', 'wave_eval_gpu must accumulate with cuda.atomic.add(abuf, (a_loc, sim), ...)', node=g)
+
+
+def thorough(rep, repo):
+    """Thorough tier: the quick rules plus checker self-validation on the C07 slice of the mutation corpus."""
+    from kvstatic import thorough as thorough_mod
+    thorough_mod.selftest_slice(rep, repo, 'C07')
